@@ -282,7 +282,22 @@ def _check_info_insert(prog, chk, X2, cls, short, ver, e):
         if b.get('kind') == 'MemberExpr' and b.get('name') == member:
             base = strip(children(b)[0], explicit=True)
             ref = base.get('referencedDecl') or {}
-            qn = site.tu.qn.get(ref.get('id'))
+            tu = site.tu
+            # the version may reach a helper as a parameter: follow it to the argument of the call
+            # that entered the helper, frame by frame
+            cur_func = e.func
+            frames = list(getattr(e, 'frames', ()) or ())
+            while ref.get('kind') == 'ParmVarDecl' and frames:
+                idx = [i for i, p_ in enumerate(cur_func.params) if p_.get('id') == ref.get('id')]
+                caller, callnode = frames.pop()
+                args = children(callnode)[1:]
+                if not idx or idx[0] >= len(args):
+                    break
+                base = strip(args[idx[0]], explicit=True)
+                ref = base.get('referencedDecl') or {}
+                cur_func = caller
+                tu = caller.tu
+            qn = tu.qn.get(ref.get('id'))
             if qn == cls + '::schema_version':
                 okb = True
             else:
@@ -371,6 +386,17 @@ def _schema_passthrough(prog, chk, X3):
                     c = children(raw)
                     raw = c[0] if c else None
                 ref = (strip(a, explicit=True).get('referencedDecl') or {}).get('id') if a is not None else None
+                # a local (copy or reference) initialised from the own parameter stands for it
+                hops = 0
+                while ref is not None and ref not in own and hops < 4:
+                    hops += 1
+                    nxt = None
+                    for x in walk(f.body):
+                        if x.get('kind') == 'VarDecl' and x.get('id') == ref:
+                            init = [y for y in children(x) if not y['kind'].endswith('Attr') and not y['kind'].endswith('Comment')]
+                            if init:
+                                nxt = (strip(init[-1], explicit=True).get('referencedDecl') or {}).get('id')
+                    ref = nxt
                 n_inst += 1
                 if raw is not None and raw.get('kind') != 'CXXDefaultArgExpr' and ref in own:
                     chk.ok(X3, '%s passes on the engine_schema it received' % short, locstr(n))
